@@ -641,7 +641,7 @@ static int list_delete(vnaproperty_t *list, int index)
     vnaproperty_free(vplp->vpl_vector[index]);
     (void)memmove((void *)&vplp->vpl_vector[index],
 		  (void *)&vplp->vpl_vector[index + 1],
-		  (vplp->vpl_length - index) * sizeof(vnaproperty_t *));
+		  (vplp->vpl_length - index - 1) * sizeof(vnaproperty_t *));
     vplp->vpl_vector[--vplp->vpl_length] = NULL;
     return 0;
 }
